@@ -19,12 +19,12 @@ import (
 
 func init() {
 	seqChecks["c10"] = &seqCheck{run: runC10, replay: replayC10,
-		rule: "all ordered pairs (absent included) of collections of length<=4 over {1,2,3}, of collections of length<=3 over {1,'x',ref,softref,data}, and of models over keys {a,b,c} with values {absent,1,'x',ref,data}; all mutation histories of length<=3 over ids {1,2}; x configuration {no transformer, IDTransformer, value-dependent rid, transformer failing on one value, empty rid} x default {none, set}; mutations go through the real mockstore -> OnChange -> store handler -> events; a reference RES client applies the events to the pre-mutation get and must equal a fresh get; distinct = distinct (configuration, before, after, event list)"}
+		rule: "all ordered pairs (absent included) of collections of length<=4 over {1,2,3}, of collections of length<=3 over {1,'x',ref,softref,data}, and of models over keys {a,b,c} with values {absent,1,'x',ref,data}; all mutation histories of length<=3 over ids {1,2}; x configuration {no transformer, IDTransformer, value-dependent rid, transformer failing on one value, transformer hiding one value as not found, empty rid} x default {none, set}; mutations go through the real mockstore -> OnChange -> store handler -> events; a reference RES client applies the events to the pre-mutation get and must equal a fresh get; distinct = distinct (configuration, before, after, event list)"}
 }
 
 type c10Cfg struct {
 	Type    string // model | collection
-	Trans   string // none | id | valrid | failing | emptyrid
+	Trans   string // none | id | xform | failing | hiding | emptyrid
 	Default bool
 }
 
@@ -111,11 +111,20 @@ func newC10World(cfg c10Cfg) *c10World {
 		}
 		return v, nil
 	}
+	hiding := func(id string, v interface{}) (interface{}, error) {
+		// hides some stored values (a soft-delete): they are served as not found
+		if strings.Contains(js10(v), `99`) {
+			return nil, store.ErrNotFound
+		}
+		return v, nil
+	}
 	switch cfg.Trans {
 	case "id":
 		h.Transformer = store.IDTransformer("id", nil)
 	case "failing":
 		h.Transformer = store.IDTransformer("id", failing)
+	case "hiding":
+		h.Transformer = store.IDTransformer("id", hiding)
 	case "xform", "emptyrid":
 		// a custom transformer: the served representation differs from the stored value
 		h.Transformer = store.TransformFuncs(
@@ -331,7 +340,7 @@ func runC10(c *seqCtx) {
 	_ = models
 	var cfgs []c10Cfg
 	for _, ty := range []string{"collection", "model"} {
-		for _, tr := range []string{"none", "id", "xform", "failing", "emptyrid"} {
+		for _, tr := range []string{"none", "id", "xform", "failing", "hiding", "emptyrid"} {
 			for _, d := range []bool{false, true} {
 				cfgs = append(cfgs, c10Cfg{ty, tr, d})
 			}
@@ -370,7 +379,7 @@ func runC10(c *seqCtx) {
 				values = c10Models([]string{`1`, `"x"`})
 			}
 		}
-		if cfg.Trans == "failing" {
+		if cfg.Trans == "failing" || cfg.Trans == "hiding" {
 			if cfg.Type == "collection" {
 				values = append(append([]string{}, c10Collections([]string{"1", "2"}, 2)...), "[99]", "[1,99]")
 			} else {
@@ -405,6 +414,9 @@ func runC10(c *seqCtx) {
 		small := []string{"", "[1]", "[2,1]"}
 		if cfg.Type == "model" {
 			small = []string{"", `{"a":1}`, `{"a":2,"b":"x"}`}
+		}
+		if cfg.Trans == "failing" || cfg.Trans == "hiding" {
+			small[2] = map[string]string{"collection": "[99]", "model": `{"a":99}`}[cfg.Type]
 		}
 		var hs []c10Case
 		var rec func(steps []c10Step)
